@@ -282,6 +282,8 @@ def run(tier, seed):
     # DESIGN 11.7: the verdict / counter functions regenerated from the source text and proved equal to the
     # model's (reported at the end, unless the stages below find a concrete failing input)
     gen_tie.gate(chk, GEN_TARGETS, gate)
+    # glue code (DESIGN 11.7, third round): TestList::run_count (= initial_run_count) counts every mismatch reason
+    gen_tie.gate(chk, ['run_count'], gate, family="glue")
     r = vlib.rng_for(seed, PROP)
     thorough = tier == "thorough"
     chk.assumptions = []
